@@ -2558,6 +2558,16 @@ impl<'a> Cx<'a> {
                 }
                 Ok((X::app("List.filter", vec![f, recv]), rt.clone()))
             }
+            // `(a..b).any(|i| p(i))` on a `Range<usize>` held as the pair of its bounds: the indexes front to back, stopping at the first `true`
+            // (a panic of `p` at a later index does not happen): `Slice.rangeAnyM`; pure `p`: `List.any (List.range' a (b - a))`
+            (T::Tuple(ts), "any") if args.len() == 1 && ts.len() == 2 && ts[0] == T::Usize && ts[1] == T::Usize => {
+                let (f, ft, eff) = self.closure(args[0], &[T::Usize], &T::Bool, true)?;
+                if ft != T::Bool {
+                    return Err("`any` closure: not a predicate".into());
+                }
+                let _ = eff;
+                Ok((self.hoist(X::app("Slice.rangeAnyM", vec![recv, f])), T::Bool))
+            }
             (T::List(t), "any" | "all") if args.len() == 1 => {
                 let (f, ft, eff) = self.fn_value(args[0], &[(**t).clone()], &T::Bool)?;
                 if ft != T::Bool || eff {
